@@ -193,7 +193,6 @@ def explore_unit(res, run):
                 continue        # the path is infeasible: nothing to decide
             res.undecided.append((res.unit, str(ex)))
             res.effects.extend(ctx.effects)
-            import os
             if os.environ.get("KVC_DEBUG"):
                 import traceback
                 traceback.print_exc()
